@@ -360,8 +360,19 @@ func (p *Parser) parseItem() (secs2.Item, error) {
 	return item, nil
 }
 
+// capHint bounds a size hint that is only used as an allocation capacity by the number of
+// input bytes left: n more elements need at least n more bytes of text, so a hint such as
+// <L[2147483647]> must not make the parser allocate from the hint alone.
+func (p *Parser) capHint(size int) int {
+	if size > len(p.data) {
+		return len(p.data)
+	}
+
+	return size
+}
+
 func (p *Parser) parseList(size int) (secs2.Item, error) {
-	childItems := make([]secs2.Item, 0, size)
+	childItems := make([]secs2.Item, 0, p.capHint(size))
 
 	for {
 		switch ch := p.peekNonSpaceRune(); ch {
@@ -419,7 +430,7 @@ func (p *Parser) parseASCIIStrict(size int) (secs2.Item, error) {
 	isNumStr := false
 	isEscapedCh := false
 	var sb strings.Builder
-	sb.Grow(size)
+	sb.Grow(p.capHint(size))
 
 	for i, ch := range p.data {
 		switch {
@@ -671,7 +682,7 @@ func (p *Parser) parseLocalizedStr() (secs2.Item, error) {
 }
 
 func (p *Parser) parseBoolean(size int) (secs2.Item, error) {
-	items := make([]bool, 0, size)
+	items := make([]bool, 0, p.capHint(size))
 	start := p.pos
 	values := p.getItemValueStrings()
 
@@ -690,7 +701,7 @@ func (p *Parser) parseBoolean(size int) (secs2.Item, error) {
 }
 
 func (p *Parser) parseBinary(size int) (secs2.Item, error) {
-	items := make([]byte, 0, size)
+	items := make([]byte, 0, p.capHint(size))
 	start := p.pos
 	values := p.getItemValueStrings()
 
@@ -711,7 +722,7 @@ func (p *Parser) parseBinary(size int) (secs2.Item, error) {
 }
 
 func (p *Parser) parseFloat(byteSize int, size int) (secs2.Item, error) {
-	items := make([]float64, 0, size)
+	items := make([]float64, 0, p.capHint(size))
 	start := p.pos
 	values := p.getItemValueStrings()
 
@@ -732,7 +743,7 @@ func (p *Parser) parseFloat(byteSize int, size int) (secs2.Item, error) {
 }
 
 func (p *Parser) parseInt(byteSize int, size int) (secs2.Item, error) {
-	items := make([]int64, 0, size)
+	items := make([]int64, 0, p.capHint(size))
 	start := p.pos
 	values := p.getItemValueStrings()
 
@@ -753,7 +764,7 @@ func (p *Parser) parseInt(byteSize int, size int) (secs2.Item, error) {
 }
 
 func (p *Parser) parseUint(byteSize int, size int) (secs2.Item, error) {
-	items := make([]uint64, 0, size)
+	items := make([]uint64, 0, p.capHint(size))
 	start := p.pos
 	values := p.getItemValueStrings()
 
